@@ -21,5 +21,7 @@ meta = {"property": prop, "breaks": what, "needs_to_manifest": needs,
         "check": {"command": "lib/seedtest.sh %s seeded/%s-%s/patch.diff" % (prop, prop, n), "result": status, "signatures": sig}}
 json.dump(meta, open(d + "/meta.json", "w"), indent=1)
 if os.path.exists(os.path.join(wt, "NOTES.md")):
-    shutil.copy(os.path.join(wt, "NOTES.md"), "/verif/seeded/%s-notes.md" % prop)
+    k = int(n) if n.isdigit() else 1
+    suffix = "" if k <= 2 else "-wave3" if k <= 5 else "-wave4" if k <= 8 else "-wave%d" % ((k + 3) // 3 + 1)
+    shutil.copy(os.path.join(wt, "NOTES.md"), "/verif/seeded/%s-notes%s.md" % (prop, suffix))
 print("saved", d)
